@@ -987,7 +987,7 @@ func main() {
 	{
 		kLen, nK := 3, 800
 		if thorough {
-			kLen, nK = 5, 20000
+			kLen, nK = 5, 6000
 		}
 		kin := enumStrings([]string{"a", "f", "1", ":", "[", "]", ".", "-"}, kLen)
 		hostsK := []string{"", "a.test", "b-c.test", "10.0.0.1", "[::1]", "::1", "[fe80::1]", "abc", "1.2", "f00d", "[a.test]", "a_b", "-a", "a-", "a..b", "*", "[", "]", "256.1.1.1", "dead:beef", "[::ffff:1.2.3.4]"}
